@@ -14,7 +14,7 @@ CHECKS = {
          "trusted: ref/hash.go (own signed FNV-1a, MurmurHash3-x86-32, bitwise CRC), Go's hash/crc32, the published test vectors in ref/vectors.go",
          "runtime differential oracle against independent reference implementations (plain + asan builds)"),
  "C09": ("fault_enumeration",
-         "Round trip through both record writers compared byte-for-byte with an independent encoder, then a corruption campaign: for every file image up to 4 KB every byte position x {bit flip, 0x00, 0xff} and truncation at every length (exhaustive per image), sampled positions for larger images, multi-byte damage, zeroed blocks and size-field damage; an independent decoder labels each record intact/damaged and the oracle checks positional reads and the sequential scan; for one damaged image in eight the records a second scan yields are re-written through the stream writer (what GC does with a source) and the copy must be the reference encoding of exactly the intact records, every returned offset aligned and readable by position. Fault enumeration per generated image, images sampled.",
+         "Round trip through both record writers compared byte-for-byte with an independent encoder, then a corruption campaign: for every file image up to 4 KB every byte position x {bit flip, 0x00, 0xff} and truncation at every length (exhaustive per image), sampled positions for larger images, multi-byte damage, zeroed blocks and size-field damage; every third image is written and scanned under a small body_max with values of exactly body_max and body_max-1 bytes; an independent decoder labels each record intact/damaged and the oracle checks positional reads and the sequential scan; for one damaged image in eight the records a second scan yields are re-written through the stream writer (what GC does with a source) and the copy must be the reference encoding of exactly the intact records, every returned offset aligned and readable by position. Fault enumeration per generated image, images sampled.",
          "DESIGN.md section 4 (C09)",
          "trusted: ref/record.go (documented record layout), hash/crc32; CRC collisions (2^-32) ignored",
          "fault injection (byte/bit corruption, truncation) with a reference-decoder oracle over positional and streaming reads (plain + asan builds)"),
@@ -29,7 +29,7 @@ CHECKS = {
          "trusted: ref.RefMap (version arithmetic written from the property), ref value generator; open dimensions (incr versions, tombstones after rebuild) adopted",
          "reference-model monitor (RefMap oracle) over generated histories, in-process at the StorageClient boundary"),
  "C02": ("exploration",
-         "C01 histories with clean restarts at generated positions; at each restart the closed directory is reopened once per index-file subset (exhaustive 2^k when k<=5 in thorough) and every variant compared with the reference map; under check_vhash three live keys are set to their own value right after every restart (must be 'not really set': probes the value hash kept in rebuilt indexes); plus deterministic and randomized shutdown schedules: the post-rotation flush goroutine parked at its entry hook while Close() completes (directory copied at that instant), and flusher/hint-dumper loop bodies racing with Close under yield injection (plain and race builds). The server's own graceful shutdown is exercised with the real memcache.Server on loopback TCP (Main's sequence: Shutdown as the signal handler calls it, Serve returns, HStore.Close; the directory is copied when Close returns): clients write all the time, connections that are idle at the signal write again when Serve has returned or at the 1st..3rd file-system step of Close; every set acknowledged before Close returned must be served after reopening the copy.",
+         "C01 histories (half of the configurations with flush_interval 60 as shipped in conf/global.yaml) with clean restarts at generated positions; at each restart the closed directory is reopened once per index-file subset (exhaustive 2^k when k<=5 in thorough) and every variant compared with the reference map; under check_vhash three live keys are set to their own value right after every restart (must be 'not really set': probes the value hash kept in rebuilt indexes); plus deterministic and randomized shutdown schedules: the post-rotation flush goroutine parked at its entry hook while Close() completes (directory copied at that instant), and flusher/hint-dumper loop bodies racing with Close under yield injection (plain and race builds). The server's own graceful shutdown is exercised with the real memcache.Server on loopback TCP (Main's sequence: Shutdown as the signal handler calls it, Serve returns, HStore.Close; the directory is copied when Close returns): clients write all the time, connections that are idle at the signal write again when Serve has returned or at the 1st..3rd file-system step of Close; every set acknowledged before Close returned must be served after reopening the copy.",
          "DESIGN.md section 4 (C02)",
          "restart = fresh store instance on a copy of the directory taken when Close returns (same process, globals re-initialised by NewHStore); tombstone versions adopted after restart as the quantifier allows",
          "reference-model monitor + index-file fault enumeration + hook-controlled shutdown schedules (park/release, yield injection) + race detector"),
@@ -59,7 +59,7 @@ CHECKS = {
          "asan instruments quicklz.c; QuickLZ's word-wise source fetch (fast_read, <= 3 bytes past the source) is classified informational, every other report is a violation; hostile claimed sizes capped at 16 MB",
          "reference-model monitor + cross-implementation differential + AddressSanitizer on hostile inputs"),
  "C15": ("exploration",
-         "Real key hash with 1/16/256 buckets and served patterns none/one/subset/all: per-key before/after inventory (sha1) of every file below the home directory, independent scanner finds the record in the expected bucket directory, unserved buckets store nothing and miss, listings above/at/below bucket depth equal the reference aggregate of the served buckets, read-back after restart.",
+         "Real key hash with 1/16/256 buckets and served patterns none/one/subset/all: per-key before/after inventory (sha1) of every file below the home directory, independent scanner finds the record in the expected bucket directory, unserved buckets store nothing and miss, listings above/at/below bucket depth equal the reference aggregate of the served buckets, read-back after restart; for 16/256 buckets the served set is derived through the repository's route-table code from a generated route table, and after each pattern the same home is reopened with a smaller served set (data-holding buckets taken away must not be served).",
          "DESIGN.md section 4 (C15)",
          "trusted: ref.KeyHash/BucketOf, ref/merkle.go",
          "file-system inventory monitor + reference routing oracle"),
@@ -84,7 +84,7 @@ CHECKS = {
          "read errors while a position is being relocated are counted, not judged (documented 'omit it' behaviour); the hint dumper loop is left out of the race build (GC vs dumper data races are listed in DESIGN.md as observed, outside the property)",
          "history recording + offline linearizability checking, deterministic park/release placements at GC hook points, race detector, AddressSanitizer"),
  "C17": ("exploration",
-         "Eligibility: generated stores (1..6 small files, controlled first-record timestamps, gaps, three head states) x request tuples (start, end, no_gc_days, merge, pretend, incl. negatives and out-of-range ids); a third of the requests go through the admin web handler (gobeansdb/web.go handleGC via httptest, defaults left out, dry run unless run=true); inventory (sha1) and FS-mutation hook log around every request; reference resolution of the range; a real pass may change only files inside the resolved range plus one earlier file that never shrinks, never the head, and only files the age limit allows. Single pass: overlap detector on gc.enter/gc.exit; six request schedules (back-to-back, concurrent, first parked after its check, first parked inside its pass, 2..5 further requests of different shapes while a pass is parked at its first file, 3..6 concurrent requests), also under -race.",
+         "Eligibility: generated stores (1..6 small files, controlled first-record timestamps, gaps, three head states) x request tuples (start, end, no_gc_days, merge, pretend, incl. negatives and out-of-range ids); a third of the requests go through the admin web handler (gobeansdb/web.go handleGC via httptest, defaults left out, dry run unless run=true); inventory (sha1) and FS-mutation hook log around every request; reference resolution of the range; a real pass may change only files inside the resolved range plus one earlier file that never shrinks, never the head, and only files the age limit allows. Single pass: overlap detector on gc.enter/gc.exit; six request schedules (back-to-back, concurrent, first parked after its check, first parked inside its pass, 2..5 further requests of different shapes - dry run, unknown range, real, cancel (direct and through the admin handler) - while a pass is parked at its first file, 3..6 concurrent requests), also under -race.",
          "DESIGN.md section 4 (C17)",
          "timestamps hours away from the no_gc_days boundary (the code reads the wall clock); record size at most half the data-file limit",
          "inventory + hook-log monitor with reference range oracle; hook-based overlap detector with park/release schedules; race detector"),
